@@ -30,7 +30,9 @@ RULE = ("histories: every sequence up to length L1 over the 9-operation alphabet
         "paths, ChoiceLoader of two DictLoaders) over {get, select, put / delete in layer 1 or layer 2}, where a "
         "put into layer 1 shadows the template loaded from layer 2 (also with names in sub directories and a first search path that do "
         "not exist until the put); templates that are symbolic links whose target is modified / deleted; histories in which env.auto_reload is switched on / off "
-        "between requests; source changes made by REPLACING the loader's container object (mapping / load_func / searchpath).  each get / select rotates through the entry points (get_template, "
+        "between requests; source changes made by REPLACING the loader's container object (mapping / load_func / searchpath); the template cache composed "
+        "with a bytecode cache filled by another environment; deletions that change the shape of the tree (the template's directory becomes a "
+        "file, the template file becomes a directory).  each get / select rotates through the entry points (get_template, "
         "get_or_select_template, select_template([name]), tuple of names) and optional arguments (globals=, parent=, str "
         "subclass as name).  distinct = (loader kind, auto_reload, size, history); non-trivial = a get/select "
         "follows a put or delete of a name that was loaded before.")
@@ -41,6 +43,7 @@ ALPHA_FULL = ["g:1", "g:2", "s:1,2", "s:2,1", "p:1:1", "p:1:2", "p:2:2", "d:1", 
 ALPHA_RED = ["g:1", "g:2", "p:1:2", "p:1:1", "d:1", "s:2,1"]
 ALPHA_3 = ["g:1", "g:2", "g:3", "p:1:2", "d:1"]
 ALPHA_4 = ["g:1", "g:2", "g:3", "g:4"]
+ALPHA_FSD = ["g:1", "g:2", "p:1:2", "D:1", "F:1", "s:1,2", "d:1"]      # kind fsd: directory -> file, file -> directory, plain delete
 ALPHA_REP = ["g:1", "R:1:2", "R:1:1", "d:1", "s:1,2", "p:1:2"]      # the loader's container object is replaced
 ALPHA_TOG = ["g:1", "p:1:2", "d:1", "a:1", "a:0", "s:1,2"]      # env.auto_reload switched between requests      # recency below capacity: sizes 2, 3, 4 over four names
 INIT = {1: 1, 2: 1, 3: 1, 4: 1}
@@ -61,7 +64,7 @@ class World:
         self.kind = kind
         self.state = dict(INIT)
         self.fsdir = fsdir
-        self.names = NAMES_SUB if kind == "fs2d" else NAMES         # the names templates are requested under
+        self.names = NAMES_SUB if kind in ("fs2d", "fsd") else NAMES         # the names templates are requested under
         if kind == "dict":
             self.mapping = {NAMES[n]: src(n, v) for n, v in self.state.items()}
             self.loader = jinja2.DictLoader(self.mapping)
@@ -71,6 +74,14 @@ class World:
             for n, v in self.state.items():
                 self._write(n, v)
             self.loader = jinja2.FileSystemLoader(fsdir)
+        elif kind == "fsd":
+            # one search path, names in sub directories; deletions change the SHAPE of the tree (directory -> file, file -> directory)
+            self.fsdir = fsdir + "D"
+            shutil.rmtree(self.fsdir, ignore_errors=True)
+            os.makedirs(self.fsdir)
+            for n, v in self.state.items():
+                self._write(n, v)
+            self.loader = jinja2.FileSystemLoader(self.fsdir)
         elif kind == "fslink":
             # every template in the search path is a symbolic link to a file elsewhere; source changes hit the TARGET
             self.ldir, self.tdir = os.path.join(fsdir + "L", "links"), os.path.join(fsdir + "L", "targets")
@@ -129,7 +140,7 @@ class World:
             self.state = dict(self.state)
             self.state[n] = v
             self.loader.load_func = self._make_func()
-        elif self.kind in ("fs", "fslink"):
+        elif self.kind in ("fs", "fslink", "fsd"):
             self.loader.searchpath = list(self.loader.searchpath)
             self.put(n, v)
         else:
@@ -175,30 +186,59 @@ class World:
             if not os.path.islink(link):
                 os.symlink(os.path.join("..", "targets", NAMES[n]), link)
         else:
-            p = os.path.join(self.fsdir, NAMES[n])
+            p = os.path.join(self.fsdir, self.names[n])
+            # whatever blocks the path (a file where a directory is needed, a directory where the file goes) is removed first
+            parts = self.names[n].split("/")
+            for i in range(1, len(parts)):
+                q = os.path.join(self.fsdir, *parts[:i])
+                if os.path.isfile(q):
+                    os.unlink(q)
+            if os.path.isdir(p):
+                shutil.rmtree(p)
+            os.makedirs(os.path.dirname(p), exist_ok=True)
         with open(p, "w") as f:
             f.write(src(n, v))
         os.utime(p, (MT0 + 1000 * v, MT0 + 1000 * v))
+
+    def reshape(self, how, n):
+        """D: remove the template's directory and put a FILE of that name there; F: replace the template file by a directory"""
+        p = os.path.join(self.fsdir, self.names[n])
+        if how == "D":
+            d = os.path.dirname(p)
+            if d != self.fsdir and os.path.isdir(d):
+                shutil.rmtree(d)
+                open(d, "w").write("not a directory")
+                for k, nm in self.names.items():
+                    if nm.startswith(os.path.dirname(self.names[n]) + "/"):
+                        self.state.pop(k, None)
+            else:
+                self.delete(n)
+        else:
+            if os.path.isfile(p):
+                os.unlink(p)
+            if os.path.isdir(os.path.dirname(p)) and not os.path.exists(p):
+                os.makedirs(p)
+            self.state.pop(n, None)
 
     def put(self, n, v):
         self.state[n] = v
         if self.kind == "dict":
             self.mapping[NAMES[n]] = src(n, v)
-        elif self.kind in ("fs", "fslink"):
+        elif self.kind in ("fs", "fslink", "fsd"):
             self._write(n, v)
 
     def delete(self, n):
         self.state.pop(n, None)
         if self.kind == "dict":
             self.mapping.pop(NAMES[n], None)
-        elif self.kind in ("fs", "fslink"):
+        elif self.kind in ("fs", "fslink", "fsd"):
             try:
-                os.unlink(os.path.join(self.tdir if self.kind == "fslink" else self.fsdir, NAMES[n]))     # fslink: the link dangles
-            except FileNotFoundError:
-                pass
+                os.unlink(os.path.join(self.tdir if self.kind == "fslink" else self.fsdir, self.names[n]))     # fslink: the link dangles
+            except OSError:
+                pass                        # already gone, or (kind fsd) the path runs through a file / ends in a directory
 
 
-UPT = {"dict": "V", "fs": "V", "funcV": "V", "funcN": "N", "funcT": "T", "funcF": "F", "fs2": "V", "fs2d": "V", "fslink": "V", "choice": "V"}
+UPT = {"dict": "V", "fs": "V", "funcV": "V", "funcN": "N", "funcT": "T", "funcF": "F", "fs2": "V", "fs2d": "V", "fslink": "V", "fsd": "V", "choice": "V"}
 
 
 class StrSub(str):
@@ -238,10 +278,35 @@ def call_select(env, names, k):
     return env.get_or_select_template([StrSub(n) for n in names], None, {"h": 3})
 
 
+def model_ops_of(kind, o):
+    """the model operations one real operation stands for (kind fsd: removing a directory deletes every template in it)"""
+    p = o.split(":")
+    if p[0] == "D":          # the template's directory is removed and a FILE of that name is created
+        d = os.path.dirname(NAMES_SUB[int(p[1])])
+        return [f"d:{n}" for n, nm in NAMES_SUB.items() if d and (nm.startswith(d + "/"))] or [f"d:{p[1]}"]
+    if p[0] == "F":          # the template file is replaced by a DIRECTORY of the same name
+        return [f"d:{p[1]}"]
+    return [o]
+
+
 def real_run(jinja2, kind, ar, size, ops, fsdir=None):
     """-> (result string in the driver's format, oracle failure or None)"""
+    composed = kind.endswith("+bc")
+    kind = kind.split("+")[0]
     w = World(jinja2, kind, fsdir)
-    env = jinja2.Environment(loader=w.loader, cache_size=size, auto_reload=bool(ar))
+    kw = {}
+    if composed:
+        # template cache AND bytecode cache: the bytecode cache was filled by another environment before, so the first
+        # load of every template here is a bytecode-cache hit
+        from jinja2.bccache import FileSystemBytecodeCache
+        bdir = fsdir + "B"
+        shutil.rmtree(bdir, ignore_errors=True)
+        os.makedirs(bdir)
+        warm = jinja2.Environment(loader=w.loader, bytecode_cache=FileSystemBytecodeCache(bdir), cache_size=0)
+        for n in list(w.state):
+            warm.get_template(w.names[n])
+        kw["bytecode_cache"] = FileSystemBytecodeCache(bdir)
+    env = jinja2.Environment(loader=w.loader, cache_size=size, auto_reload=bool(ar), **kw)
     objs = []
     res = []
     fail = None
@@ -265,6 +330,10 @@ def real_run(jinja2, kind, ar, size, ops, fsdir=None):
         if p[0] == "R":
             w.replace(int(p[1]), int(p[2]))
             res.append("U")
+            continue
+        if p[0] in ("D", "F"):
+            res += ["U"] * len(model_ops_of(kind, o))
+            w.reshape(p[0], int(p[1]))
             continue
         if p[0] == "p":
             w.put(int(p[1]), int(p[2]))
@@ -391,6 +460,8 @@ def shadowing(ops):
 
 
 def line(kind, ar, size, ops):
+    kind = kind.split("+")[0]              # a bytecode cache does not change what the template cache serves
+    ops = [m for o in ops for m in model_ops_of(kind, o)]
     if kind in ("fs2", "fs2d", "choice"):
         # the layered model (Model/TcLay.v): layer 1 empty, layer 2 = INIT2; closure of the FileSystemLoader (after fix
         # 3f4facf) resp. of the serving ChoiceLoader member
@@ -447,21 +518,21 @@ def run(ctx):
     three = list(histories(ALPHA_3, 3, L2))
     grid = [(s_, a_) for s_ in (0, 1, 2, -1) for a_ in (1, 0)]
     quick_grid = [(0, 1), (1, 1), (1, 0), (-1, 1), (-1, 0)]
-    for size, ar in (quick_grid if ctx.tier == "quick" else [(0, 1), (1, 1), (1, 0), (2, 1), (-1, 0)]):
+    for size, ar in (quick_grid if ctx.tier == "quick" else [(0, 1), (1, 1), (2, 1), (-1, 0)]):
         if True:
             for h in full:
                 cases.append(("dict", ar, size, h))
     for size, ar in ((2, 0),) if ctx.tier == "quick" else ((1, 1), (2, 0)):
         for h in red:
             cases.append(("dict", ar, size, h))
-    for size, ar in ((2, 1), (2, 0)) if ctx.tier == "quick" else ((1, 1), (1, 0), (2, 1), (2, 0)):
+    for size, ar in ((2, 1), (2, 0)) if ctx.tier == "quick" else ((1, 1), (2, 1), (2, 0)):
         if True:
             for h in three:
                 cases.append(("dict", ar, size, h))
     # least recently USED below capacity: a hit before the cache is full must count (sizes 3 and 4 over four names)
     four = list(histories(ALPHA_4, 4, L2 + 1))
     for size in ((3,) if ctx.tier == "quick" else (3, 4)):
-        for ar in (1, 0):
+        for ar in ((1, 0) if size == 3 else (1,)):
             for h in four:
                 cases.append(("dict", ar, size, h))
     short = list(histories(ALPHA_FULL, 0, L1 - 1))
@@ -471,7 +542,7 @@ def run(ctx):
                 for h in short:
                     cases.append((kind, ar, size, h))
     fs_h = list(histories(ALPHA_RED, 0, L1)) + list(histories(ALPHA_3, 3, L1))
-    for size, ar in ([(0, 1), (1, 1), (-1, 1), (-1, 0), (2, 0)] if ctx.tier == "quick" else grid):
+    for size, ar in [(0, 1), (1, 1), (-1, 1), (-1, 0), (2, 0)]:
         if True:
             for h in fs_h:
                 cases.append(("fs", ar, size, h))
@@ -482,10 +553,20 @@ def run(ctx):
             cases.append((kind, ar, size, h))
     # the same source changes made by replacing the loader's container (loader.mapping = {...}, load_func, searchpath)
     rep = [h for h in histories(ALPHA_REP, 2, L1) if any(o.startswith("R:") for o in h)]
-    for kind, size, ar in (("dict", 1, 1), ("dict", -1, 1), ("dict", -1, 0), ("funcV", -1, 1), ("fs", -1, 1)) + \
+    for kind, size, ar in (("dict", 1, 1), ("dict", -1, 0), ("funcV", -1, 1), ("fs", -1, 1)) + \
             ((("dict", 2, 1), ("fs", 1, 1)) if ctx.tier != "quick" else ()):
         for h in rep:
             cases.append((kind, ar, size, h))
+    # template cache and bytecode cache composed (the bytecode cache already holds every template)
+    bc_h = list(histories(ALPHA_RED, 2, L1))
+    for kind, size, ar in (("dict+bc", 1, 1), ("fs+bc", -1, 1)) + ((("dict+bc", -1, 1), ("dict+bc", 2, 1), ("fs+bc", 1, 1), ("dict+bc", -1, 0)) if ctx.tier != "quick" else ()):
+        for h in bc_h:
+            cases.append((kind, ar, size, h))
+    # deletions that change the shape of the directory tree
+    fsd_h = [h for h in histories(ALPHA_FSD, 2, L1) if any(o[0] in "DF" for o in h)]
+    for size, ar in ((1, 1),) if ctx.tier == "quick" else ((-1, 1), (1, 1), (2, 1), (-1, 0)):
+        for h in fsd_h:
+            cases.append(("fsd", ar, size, h))
     # layered loaders: FileSystemLoader with two search paths, ChoiceLoader of two DictLoaders; layer 1 shadows layer 2
     lay_h = list(histories(ALPHA_LAY, 0, L1))
     for kind in ("fs2", "choice", "fs2d"):
@@ -497,7 +578,7 @@ def run(ctx):
         for h in histories(ALPHA_RED, 0, L1 - 1):
             cases.append(("fslink", ar, size, h))
     # random longer histories on every kind
-    for _ in range(ctx.size(1500, 20000)):
+    for _ in range(ctx.size(1500, 10000)):
         kind = ctx.rng.choice(["dict", "fs", "funcV", "funcN", "funcT", "funcF"])
         h = [ctx.rng.choice(ALPHA_FULL + ["g:3", "g:4", "g:4", "s:3,1", "s:4,2", "p:3:2", "d:3", "p:2:1", "p:4:2", "s:"]) for _ in range(ctx.rng.randint(6, 12))]
         cases.append((kind, ctx.rng.choice([0, 1]), ctx.rng.choice([0, 1, 2, 3, 3, 4, -1]), h))
